@@ -112,8 +112,17 @@ def main(argv):
             if not rep.violations and hasattr(mod, 'hunt'):
                 ctx.escalated = True
                 mod.hunt(ctx)
-    except Exception:
-        rep.internal(traceback.format_exc())
+    except Exception as e:
+        tb = traceback.format_exc()
+        frames = traceback.extract_tb(e.__traceback__)
+        repo_pkg = os.path.join(os.path.realpath(os.environ.get('VERIF_REPO', '/repo')), 'pyais') + os.sep
+        if frames and os.path.realpath(frames[-1].filename).startswith(repo_pkg):
+            # the implementation raised at a point where the harness only observes (an accessor, a constructor, a state
+            # read-out): on the modelled code that never happens, so the tie between model and code no longer checks
+            broken.append({'kind': 'correspondence', 'name': 'observation of the implementation',
+                           'detail': f'{type(e).__name__} raised inside pyais while the harness was observing it: ' + tb[-700:]})
+        else:
+            rep.internal(tb)
     finally:
         if model:
             model.close()
